@@ -48,9 +48,9 @@ type FuncContract struct {
 	Requires     []*Clause
 	Ensures      []*Clause
 	Unclaimed    map[string]string
-	GuardLock    string   // "guarded <lock>: A.B, C.D": calls of the named methods happen only while <lock> is held
+	GuardLock    string // "guarded <lock>: A.B, C.D": calls of the named methods happen only while <lock> is held
 	GuardNames   []string
-	GuardFields  []string // "guardedfields <lock>: f1, f2": these fields of the lock's owner are read or written only while <lock> is held
+	GuardFields  []string  // "guardedfields <lock>: f1, f2": these fields of the lock's owner are read or written only while <lock> is held
 	Panics       []*Clause // "panics when cond": reaching a panic is allowed only under cond ... informational
 	NoPanic      []*Clause
 	Modifies     []string
@@ -103,11 +103,11 @@ type Census struct {
 
 type Contracts struct {
 	Censuses []*Census
-	Funcs   map[string]*FuncContract // pkg + "::" + key
-	Lemmas  []*Lemma
-	Specs   map[string]*SpecFunc // pkg + "::" + name ; also "::"+name for global
-	Files   []string
-	Trusted []string
+	Funcs    map[string]*FuncContract // pkg + "::" + key
+	Lemmas   []*Lemma
+	Specs    map[string]*SpecFunc // pkg + "::" + name ; also "::"+name for global
+	Files    []string
+	Trusted  []string
 }
 
 var clauseKeywords = map[string]bool{
